@@ -8,11 +8,11 @@ PROP = {
     "rule": "catalogue of guarded entry points (one isolated child per request, each request is one side of one guard: "
             "index size-1/size/size+1/UINT_MAX, shapes equal/transposed/off-by-one, x at/inside/outside the 1% edge tolerance, "
             "tables of length 0..3, method names +- one character, parameters at/beyond their range, list lengths) plus random "
-            "requests around 12 parametrised guard families; every request is non-trivial; distinct = distinct request text",
+            "requests around 13 parametrised guard families (incl. guard-violating parameters crossed with random other arguments and Factorial after random valid call histories); every request is non-trivial; distinct = distinct request text",
     "floors": {"quick": {"cases": 1500, "distinct_nontrivial": 700}, "thorough": {"cases": 30000, "distinct_nontrivial": 5000}},
     "exhaustive": {"quick": ["the guard catalogue (every entry run in both flavours)"], "thorough": ["the guard catalogue (every entry run in both flavours)"]},
     "technique": "runtime monitoring: one forked child per request under gcc ASan+UBSan, process-outcome oracle (exit status, diagnostic bytes, sanitizer reports)",
-    "level_text": "Every catalogued guard (both sides) and thousands of random requests around 12 guard families were executed against the real "
+    "level_text": "Every catalogued guard (both sides) and thousands of random requests around 13 guard families were executed against the real "
                   "library in an ASan+UBSan build and an -O2 build; each outcome (returned / exit(EXIT_FAILURE)+diagnostic / other exit / signal / sanitizer report) "
                   "was classified by the parent. Exploration: it shows the property on the requests run, not on all inputs.",
     "level_note": "Trusted: the catalogue's classification of a request as meaningful or not (written from the property text), gcc's ASan/UBSan "
